@@ -14,7 +14,7 @@ func init() {
 		ID:              "C09",
 		HangIsViolation: true,
 		Technique:       "fault enumeration by deviation-bounded DFS: every program is started on the real container with every reached fault site armed alone and in every reachable pair (callbacks return an injected error), plus every unsatisfiable required / optional point and configuration value as a program variant; oracle: error returned, no panic, termination by budget, no runner invoked; optional-only variants behave like the fault-free program",
-		Rule:            "base programs = all labelled 3-node graphs over {none, by-name, slice member} x lazy masks {none, a, c}, one configuration value per node, one user post-processor implementing every callback, one scanner, one factory post-processor, two loaders, two runners; fault sites = the reached callbacks (AfterPropertiesSet, Init, six post-processor callbacks x node, scanner x node, factory post-processor, loaders, runners); deviation bound 2 (all singles, all reachable pairs); variants = {by-name, by-type, func-tag, user-defined component tag, config} x {required, optional} unsatisfiable point on each node; non-trivial = execution with at least one armed fault or unsatisfiable point",
+		Rule:            "base programs = all labelled 3-node graphs over {none, by-name, slice member} x lazy masks {none, a, c}, one configuration value per node, one user post-processor implementing every callback, one scanner, one factory post-processor, two loaders, two runners; fault sites = the reached callbacks (AfterPropertiesSet, Init, six post-processor callbacks x node, scanner x node, factory post-processor, loaders, runners); deviation bound 2 (all singles, all reachable pairs); variants = {by-name, by-type, func-tag, user-defined component tag, value-tag config, prefix-tag config} x {required, optional} unsatisfiable point on each node; non-trivial = execution with at least one armed fault or unsatisfiable point",
 		Assumptions: []string{
 			"faults are errors returned by harness callbacks; panics inside user callbacks are outside the statement",
 			"three or more simultaneous faults are not covered",
@@ -147,7 +147,7 @@ type c09UnsatCase struct {
 func c09Unsat(c *core.Ctx) {
 	gen := func(yield func(c09UnsatCase) bool) {
 		alpha := []int{scen.ENone, scen.EName, scen.ESlice}
-		kinds := []string{"name-req", "name-opt", "type-req", "type-opt", "cfg-req", "cfg-opt", "func-req", "func-opt", "custom-req", "custom-opt"}
+		kinds := []string{"name-req", "name-opt", "type-req", "type-opt", "cfg-req", "cfg-opt", "func-req", "func-opt", "custom-req", "custom-opt", "pfx-req", "pfx-opt"}
 		allGraphs(3, alpha, false, func(e [][]int) bool {
 			for _, lz := range []int{0, 4} {
 				lazy := []bool{false, false, lz == 4}
@@ -210,7 +210,7 @@ func c09Unsat(c *core.Ctx) {
 			case s0 != s1 || strings.Join(o0.RT.Log, " ") != strings.Join(o.RT.Log, " "):
 				c.Outcome(x.Kind + "/differs")
 				c.Report(key("optdiff"), "optional-changed-outcome", fmt.Sprintf("unsatisfiable optional %s point on %s changed the outcome: %q (err=%v) vs %q without the point", x.Kind, nm, s1, scen.FirstLine(o.Err), s0), cs)
-			case !scen.IsNilSlot(n.S5) || n.M0 != nil || (x.Kind == "cfg-opt" && n.V0 != ""):
+			case !scen.IsNilSlot(n.S5) || n.M0 != nil || ((x.Kind == "cfg-opt" || x.Kind == "pfx-opt") && n.V0 != ""):
 				c.Outcome(x.Kind + "/touched")
 				c.Report(key("opttouched"), "optional-touched", fmt.Sprintf("unsatisfiable optional %s point on %s does not hold its zero value", x.Kind, nm), cs)
 			default:
